@@ -155,15 +155,26 @@ impl FileDesc {
         if oti.fec_encoding_id == oti::FECEncodingID::ReedSolomonGF28
             || oti.fec_encoding_id == oti::FECEncodingID::ReedSolomonGF28UnderSpecified
         {
-            // GF(2^8): a block (source symbols + parity symbols) cannot have more than 256 symbols
+            // FEC Encoding ID 5: the maximum source block length and the maximum number of encoding symbols
+            // (source + parity) are 8-bit fields of the FEC OTI, larger values are announced truncated
+            if oti.fec_encoding_id == oti::FECEncodingID::ReedSolomonGF28
+                && oti.maximum_source_block_length as u64 + oti.max_number_of_parity_symbols as u64 > 255
+            {
+                return Err(FluteError::new(format!(
+                    "Maximum source block length of {} with {} parity symbols do not fit the 8-bit fields of the FEC OTI of Reed Solomon GF(2^8)",
+                    oti.maximum_source_block_length, oti.max_number_of_parity_symbols
+                )));
+            }
+
+            // GF(2^8): a block (source symbols + parity symbols) cannot have more than 255 symbols (n <= 2^m - 1)
             let (a_large, _, _, _) = partition::block_partitioning(
                 oti.maximum_source_block_length as u64,
                 object.transfer_length,
                 oti.encoding_symbol_length as u64,
             );
-            if a_large + oti.max_number_of_parity_symbols as u64 > 256 {
+            if a_large + oti.max_number_of_parity_symbols as u64 > 255 {
                 return Err(FluteError::new(format!(
-                    "Source blocks of {} symbols with {} parity symbols exceed the 256 symbols of Reed Solomon GF(2^8), your object is incompatible with the FEC parameters of your OTI",
+                    "Source blocks of {} symbols with {} parity symbols exceed the 255 symbols of Reed Solomon GF(2^8), your object is incompatible with the FEC parameters of your OTI",
                     a_large, oti.max_number_of_parity_symbols
                 )));
             }
